@@ -182,7 +182,60 @@ func evalInfixParts(node *InfixExpression, env *Environment) Object {
 		return right
 	}
 
-	return evalInfixExpression(node.Operator, left, right)
+	result := evalInfixExpression(node.Operator, left, right)
+	if isError(result) && isComparator(node.Operator) && dependsOnItem([]Expression{node.Left, node.Right}, []Object{left, right}) {
+		// the stored value has a type the comparison is not defined for: the condition is false for
+		// this item, it is not an invalid request
+		return FALSE
+	}
+
+	return result
+}
+
+// isItemOperand tells whether the operand is read from the item (an attribute name, a #name
+// placeholder or a document path) and not from the request (a :value placeholder)
+func isItemOperand(exp Expression) bool {
+	for {
+		index, ok := exp.(*IndexExpression)
+		if !ok {
+			break
+		}
+
+		exp = index.Left
+	}
+
+	identifier, ok := exp.(*Identifier)
+
+	return ok && !strings.HasPrefix(identifier.Value, ":")
+}
+
+// dependsOnItem tells whether operands that do not fit each other are a matter of the stored
+// item: at least one of them is read from the item, and the ones the request supplies are of
+// a type that can be ordered and do not differ among themselves
+func dependsOnItem(exps []Expression, objs []Object) bool {
+	fromItem := false
+
+	var supplied Object
+
+	for i, exp := range exps {
+		if isItemOperand(exp) {
+			fromItem = true
+
+			continue
+		}
+
+		if !comparableTypes[objs[i].Type()] {
+			return false
+		}
+
+		if supplied != nil && supplied.Type() != objs[i].Type() {
+			return false
+		}
+
+		supplied = objs[i]
+	}
+
+	return fromItem
 }
 
 func checkSyntaxInfixParts(node *InfixExpression) Object {
@@ -703,6 +756,11 @@ func evalBetween(node *BetweenExpression, env *Environment) Object {
 	}
 
 	if !matchTypes(val.Type(), val, min, max) {
+		if dependsOnItem([]Expression{node.Left, node.Range[0], node.Range[1]}, []Object{val, min, max}) {
+			// the stored value is of another type than the bounds: false for this item
+			return FALSE
+		}
+
 		return newError("mismatch type: BETWEEN operands must have the same type")
 	}
 
@@ -770,6 +828,11 @@ func evalBetweenOperand(exp Expression, env *Environment) Object {
 	}
 
 	if !comparableTypes[val.Type()] && !isUndefined(val) {
+		if isItemOperand(exp) {
+			// a stored value that cannot be ordered lies in no range: like a missing attribute
+			return UNDEFINED
+		}
+
 		return newError("unexpected type: %q should be a comparable type(N,S,B) got %q", exp.String(), val.Type())
 	}
 
@@ -826,7 +889,38 @@ func evalFunctionCall(node *CallExpression, env *Environment) Object {
 		return newError("incorrect number of operands for operator or function; function: %s, number of operands: %d", funcObj.Name, len(args))
 	}
 
-	return fn.(*Function).Value(args...)
+	result := funcObj.Value(args...)
+	if isError(result) && isItemOperand(node.Arguments[0]) {
+		return functionOfUnfitAttribute(funcObj.Name, node, args, result)
+	}
+
+	return result
+}
+
+// functionOfUnfitAttribute is the result of a function whose first argument is read from the item
+// and has a type the function is not defined for: that is a matter of the stored item, not an
+// invalid request - begins_with and contains are false, size has no value (like a missing attribute)
+func functionOfUnfitAttribute(name string, node *CallExpression, args []Object, errObj Object) Object {
+	switch name {
+	case "begins_with":
+		if isItemOperand(node.Arguments[1]) || args[1].Type() == ObjectTypeString || args[1].Type() == ObjectTypeBinary {
+			return FALSE
+		}
+	case "contains":
+		inText := args[0].Type() == ObjectTypeString || args[0].Type() == ObjectTypeBinary
+		textual := args[1].Type() == ObjectTypeString || args[1].Type() == ObjectTypeBinary
+
+		if inText && !textual && !isItemOperand(node.Arguments[1]) {
+			// the request looks for something in a string that no string can contain
+			return errObj
+		}
+
+		return FALSE
+	case "size":
+		return UNDEFINED
+	}
+
+	return errObj
 }
 
 func evalUpdateFunctionCall(node *CallExpression, env *Environment) Object {
